@@ -230,10 +230,17 @@ func checkMain(repo, verif string, args []string) int {
 				writeReplay(path, r, cfg, wv)
 				failed, out := replayNative(repo, verif, path)
 				nw++
-				replayed++
-				if failed || !strings.Contains(out, "ok  \t") {
+				switch {
+				case failed:
+					replayed++
 					fmt.Printf("TRANSLATOR-MISMATCH property=%s run=%s: a path the engine passes fails natively (replay=%s)\n%s\n", prop, r.Name, path, tailLines(out, 12))
 					inconclusive = append(inconclusive, r.Name+": engine/native mismatch on a passing path")
+				case strings.Contains(out, "ok  \t"):
+					replayed++
+				default:
+					// the native run neither passed nor failed the harness (build problem, time-out under load):
+					// not counted as validated, not held against the check
+					fmt.Printf("note: witness replay of run %s did not complete natively\n", r.Name)
 				}
 			}
 		}
